@@ -122,10 +122,11 @@ Definition lstep (c : lcfg) (s : lstate) (o : lop) : lstate * option (result (li
       else (s, Some (Ok (diffv (lc_torus c) (lc_bounds c) p q)))
   end.
 
-(* what the property talks about: space.agents with agent.pos, and which agents carry a pos *)
+(* what the property talks about: space.agents IN ORDER (AgentSet(list(self._agent_to_index)): dict insertion order)
+   with agent.pos, and which agents carry a pos *)
 Definition l_view (s : lstate) : list Z :=
   Z.of_nat (length (l_a2i s))
-  :: obs_rows (map (fun a => a :: match aget a (l_pos s) with Some p => p | None => [-999999] end)
+  :: obs_rows_in_order (map (fun a => a :: match aget a (l_pos s) with Some p => p | None => [-999999] end)
                    (akeys (l_a2i s)))
   ++ SEP :: zsort (akeys (l_pos s)).
 
